@@ -38,7 +38,13 @@ Inductive c15case :=
 (* parse.String(s, time.Duration) on arbitrary text *)
 | DurRaw (s : str) (impl : outcome Z)
 (* nanosecond count -> Duration.String() -> parse.String *)
-| DurRT (z : Z) (impl_str : str) (impl : outcome Z).
+| DurRT (z : Z) (impl_str : str) (impl : outcome Z)
+(* integer elements with blanks before and after them, on BOTH slice paths:
+   parse.String(s, []intN) (scanner tokens; the env source) and
+   parse.SignedIntegralSlice / UnsignedIntegralSlice (Split + TrimSpace; the flag helpers).
+   zs are the values the harness rendered into s. *)
+| PaddedInts (signed : bool) (w : N) (s : str) (zs : list Z) (impl_generic : outcome pval)
+             (impl_integral : outcome (list Z)).
 
 Definition sw_of (w : N) : swidth :=
   match w with 0 => I8 | 1 => I16 | 2 => I32 | 3 => I64 | _ => IInt end.
@@ -233,6 +239,14 @@ Definition check (c : c15case) : N :=
                     end in
         verdict (out_eqb Z.eqb impl spec) (out_eqb Z.eqb impl model)
                 (match dur_spec s with DVal _ t => if two64 <=? t then 4 else 0 | _ => 0 end)
+  | PaddedInts signed w s zs ig ii =>
+      let et := if signed then TInt (sw_of w) else TUint (uw_of w) in
+      let mg := parse_string (mk_print []) fixed9 fixed_elem (TSlice et) s in
+      let mi := if signed then signed_slice_gen fixed10 (sw_of w) s
+                else omap (map Z.of_N) (unsigned_slice_gen fixed10 (uw_of w) s) in
+      let want := match zs with [] => Ok (VList []) | _ => Ok (VList (map VInt zs)) end in
+      verdict (out_eqb pval_eqb ig want && out_eqb z_list_eqb ii (Ok zs))
+              (out_eqb pval_eqb ig mg && out_eqb z_list_eqb ii mi) 0
   | DurRT z istr impl =>
       let mstr := dur_string z in
       if negb ((- Z.of_N two63 <=? z)%Z && (z <? Z.of_N two63)%Z) then 1
